@@ -53,6 +53,12 @@ CLAIMED = {
  'C07': dict(cat='exploration', tech='exhaustive per-row differential walk: whole batch, row-reversed batch and every one-row batch of a designed alphabet through each N-row entry point versus the single-item entry point on the real code',
    text='1 087 quaternion rows (octahedral and icosahedral groups, an oblique conjugate, 17 axes x 47 angles incl. half-turns and 1e-12) through every Quaternion/QuaternionArray twin, q2R and DCM.from_quaternion; 2 560 angle triples through the rpy constructors; all 7 DCM->quaternion methods as N x 3 x 3 versus 3 x 3 and through the array constructor; 2 976 quaternion pairs (all pairs of the octahedral group, near-equal and near-antipodal pairs from 1e-6 rad) through the batch and single metrics; every single-frame estimator entry with N samples versus one-sample constructor versus estimate(); option pass-through on both paths. Rows are independent, so whole batch + reversed batch + all one-row batches are exhaustive per row.',
    note='Differential tolerance 1e-12 (1e-9 for metrics); estimator outputs compared as attitudes (sign / 2 pi agnostic).'),
+ 'C13': dict(cat='fault_enumeration', tech='exhaustive enumeration of every single fault (sensor set x start x length), whole-record and tail faults and every pair of single-row faults on a base record, each faulty history run to completion on the real filter; differential recovery oracle against the fault-free run',
+   text='17 recursive filter configurations x batch and streaming entry points x 2 (quick) / 9 (thorough) attitudes: 5 sensor sets x 12 starts x 3 lengths, whole-record faults, tail faults, all 66 pairs of single-row faults: 17 646 / 169 314 fault histories. A run may refuse with ValueError or must emit only finite unit rows at and after the fault, and return within a per-filter tolerance of its own fault-free run 24 rows after the last fault.',
+   note='Faults are exact zero rows on a 44-row record; recovery tolerances per filter follow the 100x rule and are listed in the module; known finding: UKF fails on the fault-free record for two attitudes.'),
+ 'C18': dict(cat='model_checking', tech='complete pair and triple tables of finite rotation groups (and conjugates/cosets) walked through the real metric functions, single and N-row, plus an explicit relative-angle grid',
+   text='All unordered pairs of the octahedral / icosahedral groups and oblique copies for non-negativity, symmetry, zero set, sign invariance and the closed form; all triples (g, p, q) for left and right invariance; complete n^3 tables for the triangle inequality of the six true metrics; closed forms on 12 bases x 17 axes x 16 (82) relative angles from 1e-4 to pi, as quaternions and as matrices.',
+   note='Finite groups and an angle grid; arccos-conditioned tolerances 1e-8, others 1e-9.'),
 }
 PENDING_REASON = 'check not built yet in this session (planned in DESIGN.md section 3); not claimed until it runs clean'
 
